@@ -232,6 +232,31 @@ def _flat_fields(node):
     return out
 
 
+def _inexact(node):
+    """Sub-expressions between `node` and the fields / parameters it reads that are not moves, conversions or joins
+    (min / max / arithmetic / a constant alternative): the value is then not the source itself."""
+    out = []
+    stk = [node]
+    seen_ = set()
+    while stk:
+        x = stk.pop()
+        if id(x) in seen_:
+            continue
+        seen_.add(id(x))
+        k = x.kind
+        if k in ("field", "downcast", "param"):
+            continue            # a place chain below a field read: the source itself
+        if k in ("ref", "deref", "cast"):
+            stk.append(x[1])
+        elif k == "phi":
+            stk.extend(x[1])
+        elif k == "call" and x[6] in ("into", "from", "clone", "deref", "as_ref", "borrow", "to_owned", "get", "load") and x[3]:
+            stk.append(x[3][0])
+        else:
+            out.append(fmt(x)[:120])
+    return out
+
+
 def check_r3_r4(facts, rep, crate, inter):
     rep.rule("C03.R3", "send credit initialised from the peer's advertised window, never from the local one")
     rep.rule("C03.R4", "inbound queue capacity = window in Connect = window in handshake Acknowledge = local Options.rwnd")
@@ -251,6 +276,17 @@ def check_r3_r4(facts, rep, crate, inter):
         ff = set()
         for nw in news:
             ff |= _flat_fields(nw[3][0])
+        # the credit is the advertised window itself: between AtomicU32::new and the payload fields there are only moves,
+        # conversions and joins (no min / max / arithmetic / constant alternative)
+        inexact = []
+        for nw in news:
+            inexact += _inexact(nw[3][0])
+        if inexact:
+            rep.bad("C03.R3", "credit-init-exact", where,
+                    "the initial send credit is not the peer's advertised window itself but computed from it: `%s` (for some advertised "
+                    "value, e.g. 0 or a large window, the sender starts with more or less credit than the peer granted)" % inexact[0])
+        else:
+            rep.ok("C03.R3", "credit-init-exact", where, "credit = advertised window through moves / conversions only")
         has_peer = ("ConnectPayload.rwnd" in ff) and ("as:Acknowledge" in ff)
         has_local = any(f in ff for f in ("Task.rwnd", "Options.rwnd", "Multiplexor.rwnd", "Task.default_rwnd_threshold"))
         if has_peer and not has_local:
@@ -273,7 +309,13 @@ def check_r3_r4(facts, rep, crate, inter):
                 where = "%s (%s)" % (loc_str(t["loc"]), b.path)
                 src = _sources(inter, b, t["args"][0])
                 ff = _flat_fields(src)
-                if ff and ff <= {"Task.rwnd", "Options.rwnd"} and "Task.rwnd" in ff:
+                ix = _inexact(src)
+                if ff and ff <= {"Task.rwnd", "Options.rwnd"} and "Task.rwnd" in ff and ix:
+                    rep.bad("C03.R4", "inbound-capacity-exact", where,
+                            "the per-stream inbound queue capacity is computed from the local window (`%s`) instead of being the window that is "
+                            "advertised to the peer: if it is smaller, a conforming peer that uses its whole window overruns the queue and the "
+                            "stream is reset" % ix[0])
+                elif ff and ff <= {"Task.rwnd", "Options.rwnd"} and "Task.rwnd" in ff:
                     rep.ok("C03.R4", "inbound-capacity", where, "capacity <- %s" % sorted(ff))
                 else:
                     rep.bad("C03.R4", "inbound-capacity", where,
@@ -288,7 +330,12 @@ def check_r3_r4(facts, rep, crate, inter):
             rw = inter.expand(b, cn[3][3])
             idn = inter.expand(b, cn[3][2])
             ff = _flat_fields(rw)
-            if ff and ff <= {"Multiplexor.rwnd", "Options.rwnd", "Task.rwnd"}:
+            ix = _inexact(rw)
+            if ff and ff <= {"Multiplexor.rwnd", "Options.rwnd", "Task.rwnd"} and ix:
+                rep.bad("C03.R4", "connect-advertises-own-window-exact", where,
+                        "Connect advertises a value computed from the local window (`%s`), not the window itself (= the inbound queue "
+                        "capacity): a larger value lets a conforming peer overrun the queue" % ix[0])
+            elif ff and ff <= {"Multiplexor.rwnd", "Options.rwnd", "Task.rwnd"}:
                 rep.ok("C03.R4", "connect-advertises-own-window", where, "rwnd <- %s" % sorted(ff))
             else:
                 rep.bad("C03.R4", "connect-advertises-own-window", where,
@@ -300,7 +347,12 @@ def check_r3_r4(facts, rep, crate, inter):
                 continue  # consumed-frames acknowledge, see R5
             nadv += 1
             where = "%s (%s)" % (loc_str(t["loc"]), b.path)
-            if ff and ff <= {"Task.rwnd", "Options.rwnd"}:
+            ix = _inexact(cnt)
+            if ff and ff <= {"Task.rwnd", "Options.rwnd"} and ix:
+                rep.bad("C03.R4", "handshake-ack-advertises-own-window-exact", where,
+                        "the handshake Acknowledge carries a value computed from the local window (`%s`), not the window itself (= the inbound "
+                        "queue capacity): a larger value lets a conforming peer overrun the queue" % ix[0])
+            elif ff and ff <= {"Task.rwnd", "Options.rwnd"}:
                 rep.ok("C03.R4", "handshake-ack-advertises-own-window", where, "payload <- %s" % sorted(ff))
             else:
                 rep.bad("C03.R4", "handshake-ack-advertises-own-window", where,
@@ -313,7 +365,9 @@ def check_r3_r4(facts, rep, crate, inter):
                 src = inter.tracer(b).operand(fields["rwnd"])
                 ff = _flat_fields(src)
                 where = "%s (%s)" % (loc_str(s["loc"]), b.path)
-                if ff == {"Options.rwnd"}:
+                if ff == {"Options.rwnd"} and _inexact(src):
+                    rep.bad("C03.R4", "%s.rwnd<-Options.rwnd" % adt.split("::")[-1], where, "rwnd field is computed (`%s`), not copied, from Options.rwnd" % _inexact(src)[0])
+                elif ff == {"Options.rwnd"}:
                     rep.ok("C03.R4", "%s.rwnd<-Options.rwnd" % adt.split("::")[-1], where, "")
                 else:
                     rep.bad("C03.R4", "%s.rwnd<-Options.rwnd" % adt.split("::")[-1], where, "rwnd field initialised from %s" % sorted(ff))
